@@ -8,6 +8,7 @@ package verifrt
 
 import (
 	"fmt"
+	"os"
 	"runtime"
 	"runtime/debug"
 	"strings"
@@ -494,7 +495,7 @@ type threadSnap struct {
 	mask    uint64
 }
 
-type realChanMarker struct{}
+type realChanMarker struct{ _ int } // not zero-sized: distinct zero-sized variables may share one address
 
 // RealChan stands for "a channel the shim does not own" in the object list of a select.
 var RealChan any = &realChanMarker{}
@@ -524,6 +525,8 @@ func ReadOnly(o any) any { return ModeObj{o, 1} }
 //go:norace
 func Commutative(o any) any { return ModeObj{o, 2} }
 
+var noModes = os.Getenv("VERIF_NO_MODES") != ""
+
 // Conflict reports whether two footprint entries denote uses of one object that do not commute.
 //go:norace
 func Conflict(a, b any) bool {
@@ -536,6 +539,9 @@ func Conflict(a, b any) bool {
 	}
 	if a != b || a == nil {
 		return false
+	}
+	if noModes {
+		return true
 	}
 	return ma == 0 || mb == 0 || ma != mb
 }
